@@ -7,6 +7,7 @@ import (
 	"os"
 	"reflect"
 	"runtime/debug"
+	"strings"
 
 	"github.com/gnolang/gno/tm2/pkg/amino"
 )
@@ -129,6 +130,37 @@ func firstDiff(a, b string) string {
 	return fmt.Sprintf("@%d …%s… vs …%s…", i, a[lo:ha], b[lo:hb])
 }
 
+// rtClass: a round-trip mismatch whose ONLY differences are epoch times
+// (1970, amino's empty time) coming back as Go's zero time (year 1) is the
+// recorded finding rt-epoch-in-empty-struct; anything else is rt-value.
+func rtClass(orig, got string) string {
+	const epoch, year1 = "T0,0", "T-62135596800,0"
+	if strings.Contains(orig, epoch) && rewriteEpoch(orig, got, epoch, year1) {
+		return "rt-epoch-in-empty-struct"
+	}
+	return "rt-value"
+}
+
+// rewriteEpoch: got equals orig after replacing SOME occurrences of epoch by year1.
+func rewriteEpoch(orig, got, epoch, year1 string) bool {
+	i, j := 0, 0
+	changed := false
+	for i < len(orig) && j < len(got) {
+		if strings.HasPrefix(orig[i:], epoch) && strings.HasPrefix(got[j:], year1) && !strings.HasPrefix(orig[i:], year1) {
+			i += len(epoch)
+			j += len(year1)
+			changed = true
+			continue
+		}
+		if orig[i] != got[j] {
+			return false
+		}
+		i++
+		j++
+	}
+	return changed && i == len(orig) && j == len(got)
+}
+
 // checkRT evaluates the round-trip clauses of the statement on one value.
 // Returns the reflect encoder's result, the MV of the value and the verdict.
 func checkRT(rt *regType, pv reflect.Value) (enc encRes, mv string, verdict string) {
@@ -174,7 +206,7 @@ func checkRT(rt *regType, pv reflect.Value) (enc encRes, mv string, verdict stri
 	}
 	m1 := mvOrErr(d1.pv, info)
 	if m1 != mv {
-		return enc, mv, "VIOL:rt-value reflect decode(encode v) != v " + firstDiff(mv, m1)
+		return enc, mv, "VIOL:" + rtClass(mv, m1) + " reflect decode(encode v) != v " + firstDiff(mv, m1)
 	}
 	if rt.Fast {
 		d2 := decFast(rt, enc.bz)
@@ -186,7 +218,7 @@ func checkRT(rt *regType, pv reflect.Value) (enc encRes, mv string, verdict stri
 		}
 		m2 := mvOrErr(d2.pv, info)
 		if m2 != mv {
-			return enc, mv, "VIOL:rt-value fast decode(encode v) != v " + firstDiff(mv, m2)
+			return enc, mv, "VIOL:" + rtClass(mv, m2) + " fast decode(encode v) != v " + firstDiff(mv, m2)
 		}
 	}
 	// JSON
@@ -228,12 +260,20 @@ func checkDec(rt *regType, bz []byte) (d1 decRes, m1 string, verdict string) {
 			return d1, m1, "VIOL:dec-panic fast decoder panicked: " + short(d2.pmsg)
 		}
 		if (d1.err == nil) != (d2.err == nil) {
-			return d1, m1, fmt.Sprintf("VIOL:dec-accept reflect=%s fast=%s (%v / %v)", d1.status(), d2.status(), d1.err, d2.err)
+			cls := classifyDecDivergence(rt, bz, d1.err == nil, m1)
+			if cls == "" {
+				cls = "dec-accept"
+			}
+			return d1, m1, fmt.Sprintf("VIOL:%s reflect=%s fast=%s (%v / %v)", cls, d1.status(), d2.status(), d1.err, d2.err)
 		}
 		if d1.err == nil {
 			m2 := mvOrErr(d2.pv, info)
 			if m1 != m2 {
-				return d1, m1, "VIOL:dec-value decoders accept with different values " + firstDiff(m1, m2)
+				cls := classifyDecDivergence(rt, bz, true, m1)
+				if cls == "" {
+					cls = "dec-value"
+				}
+				return d1, m1, "VIOL:" + cls + " decoders accept with different values " + firstDiff(m1, m2)
 			}
 		}
 		// Codec.Unmarshal dispatch agrees with the fast decoder by construction; check anyway.
@@ -271,6 +311,120 @@ func checkDec(rt *regType, bz []byte) (d1 decRes, m1 string, verdict string) {
 		return d1, m1, "VIOL:reenc-value decode(encode(accepted)) != accepted " + firstDiff(m1, m4)
 	}
 	return d1, m1, "ok"
+}
+
+// ---- attribution of a decoder disagreement to a recorded finding ------------
+//
+// A disagreement is attributed to a known family only constructively: the
+// family's repair of the INPUT must make both real decoders accept with equal
+// values (and, for key-eof, the value the lenient decoder had produced).
+
+// agreeAccept: both decoders accept bz with equal values; returns that value.
+func agreeAccept(rt *regType, bz []byte) (string, bool) {
+	d1 := decReflect(rt, bz)
+	d2 := decFast(rt, bz)
+	if d1.panicked || d2.panicked || d1.err != nil || d2.err != nil {
+		return "", false
+	}
+	m1, m2 := mvOrErr(d1.pv, rt.Info), mvOrErr(d2.pv, rt.Info)
+	return m1, m1 == m2
+}
+
+// depad removes padding from varints: a continuation byte followed by 0x00
+// (…,0x8X,0x00 → …,0x0X), at the given candidate index or everywhere (idx<0).
+func padSites(bz []byte) []int {
+	var out []int
+	for i := 0; i+1 < len(bz); i++ {
+		if bz[i] >= 0x80 && bz[i+1] == 0x00 {
+			out = append(out, i)
+		}
+	}
+	return out
+}
+
+func depadAt(bz []byte, sites []int) []byte {
+	skip := map[int]bool{}
+	for _, i := range sites {
+		skip[i+1] = true
+	}
+	out := make([]byte, 0, len(bz))
+	for i, b := range bz {
+		if skip[i] {
+			continue
+		}
+		if skip[i+1] {
+			b &= 0x7f
+		}
+		out = append(out, b)
+	}
+	return out
+}
+
+// depadVariants: the input with all padding sites repaired (iterated, for
+// multi-byte padding) and with each single site repaired.
+func depadVariants(bz []byte) [][]byte {
+	var out [][]byte
+	cur := bz
+	for k := 0; k < 10; k++ {
+		sites := padSites(cur)
+		if len(sites) == 0 {
+			break
+		}
+		// non-overlapping sites only
+		var pick []int
+		last := -2
+		for _, i := range sites {
+			if i > last+1 {
+				pick = append(pick, i)
+				last = i
+			}
+		}
+		cur = depadAt(cur, pick)
+		out = append(out, cur)
+	}
+	for _, i := range padSites(bz) {
+		one := depadAt(bz, []int{i})
+		out = append(out, one)
+		// a longer padding run at the same place
+		for k := 0; k < 8; k++ {
+			j := -1
+			for _, s := range padSites(one) {
+				if s == i-1-k || s == i-k {
+					j = s
+				}
+			}
+			if j < 0 {
+				break
+			}
+			one = depadAt(one, []int{j})
+			out = append(out, one)
+		}
+	}
+	return out
+}
+
+// classifyDecDivergence names the recorded family a disagreement on bz belongs
+// to, or "" if none of the repairs reconciles the decoders.
+func classifyDecDivergence(rt *regType, bz []byte, reflectOK bool, reflectMV string) string {
+	if len(bz) == 0 && rt.Info.IsAminoMarshaler {
+		return "dec-empty-marshaler"
+	}
+	for _, v := range depadVariants(bz) {
+		if _, ok := agreeAccept(rt, v); ok {
+			return "dec-padded-len"
+		}
+	}
+	if reflectOK {
+		if m, ok := agreeAccept(rt, append(append([]byte(nil), bz...), 0)); ok && m == reflectMV {
+			return "dec-bytes-key-eof"
+		}
+		for _, v := range depadVariants(bz) {
+			if _, ok := agreeAccept(rt, append(append([]byte(nil), v...), 0)); ok {
+				return "dec-padded-len"
+			}
+		}
+	}
+	return ""
 }
 
 func hexOrE(b []byte) string {
